@@ -5,6 +5,7 @@
 // flushed immediately. A crash (sanitizer abort, deadlock exit 66, signal)
 // kills the worker; the driver attributes it to the in-flight job and starts a
 // new worker.
+#include <sys/personality.h>
 #include <unistd.h>
 
 #include <cstdio>
@@ -34,6 +35,17 @@ extern "C" __attribute__((used)) const char* __tsan_default_options() {
 }
 
 int main(int argc, char** argv) {
+  // With VERIF_NOASLR=1 the process re-executes itself with address-space
+  // randomisation off, so that address-dependent behaviour (libstdc++'s
+  // address-hashed mutex pool behind atomic shared_ptr access, which decides
+  // some of the happens-before edges TSan sees) is a function of the job only.
+  if (getenv("VERIF_NOASLR")) {
+    int cur = personality(0xffffffff);
+    if (cur != -1 && !(cur & ADDR_NO_RANDOMIZE)) {
+      personality(cur | ADDR_NO_RANDOMIZE);
+      execv("/proc/self/exe", argv);
+    }
+  }
   vh::register_all_jobs();
   std::setvbuf(stdout, nullptr, _IOLBF, 1 << 16);
   if (argc > 1 && std::string(argv[1]) == "one") {
